@@ -288,6 +288,17 @@ def load_known(prop):
     return [e for e in data.get("findings", []) if prop in e.get("properties", [e.get("property")])]
 
 
+def repo_fingerprint():
+    """HEAD + a digest of the working-tree diff of /repo (what the checks are building from)."""
+    try:
+        head = subprocess.run(["git", "-C", REPO, "rev-parse", "HEAD"], stdout=subprocess.PIPE, text=True).stdout.strip()
+        diff = subprocess.run(["git", "-C", REPO, "diff", "HEAD"], stdout=subprocess.PIPE).stdout
+        untracked = subprocess.run(["git", "-C", REPO, "status", "--porcelain"], stdout=subprocess.PIPE, text=True).stdout
+        return head + ":" + sha(diff)[:16] + ":" + sha(untracked)[:8]
+    except Exception:
+        return "unknown"
+
+
 class Report:
     """Collects violations of one check run, matches them against the known-findings file, prints
     the VIOLATION / KNOWN-FINDING lines and writes the evidence file."""
@@ -303,6 +314,7 @@ class Report:
         self.assumptions = []
         self.caps = []
         self.seed = int(os.environ.get("VERIF_SEED", "0") or 0)
+        self.repo_at_start = repo_fingerprint()
 
     def violation(self, kind, case, detail, sigs=(), groups=None):
         """sigs: predicates any one of which explains the violation; groups (optional): one set of
@@ -323,7 +335,11 @@ class Report:
                     return EXIT_VIOLATION
             print(f"NOT REPRODUCED property={self.prop} digest={replay} ({len(self.violations)} violations on this run)")
             return EXIT_OK
+        if repo_fingerprint() != self.repo_at_start:
+            # somebody edited /repo while the exploration was running: what was observed is a mixture
+            raise Machinery("/repo changed while the check was running (%s -> %s); no verdict" % (self.repo_at_start, repo_fingerprint()))
         cov = dict(coverage)
+        cov["repo_state"] = self.repo_at_start
         unknown, matched = [], {}
         for v in self.violations:
             hit = None
